@@ -902,6 +902,9 @@ def int_param(params, md, name, default=0, st=str):
 # phd: Advanced sort support
 
 def nocase(str1, str2):
+    # missing / None keys are represented by _Smallest and come first
+    if str1 is _Smallest or str2 is _Smallest:
+        return (str2 is _Smallest) - (str1 is _Smallest)
     return cmp(str1.lower(), str2.lower())
 
 
